@@ -13,6 +13,8 @@ import (
 
 	"github.com/superfly/ltx"
 	_ "modernc.org/sqlite"
+
+	"github.com/benbjohnson/litestream/verifhook"
 )
 
 // Naming constants.
@@ -177,6 +179,7 @@ func removeTmpFiles(root string) error {
 		case !strings.HasSuffix(path, ".tmp"):
 			return nil // skip non-temp files
 		default:
+			verifhook.FS("remove", path, "")
 			return os.Remove(path)
 		}
 	})
